@@ -440,7 +440,16 @@ def organize(
         for t in dawgie.pl.schedule.ae.at:
             for n in t.locate(tn):
                 jobs[n.tag] = n
-                n.set('runid', runid)
+                rid = runid
+                if n.get('todo'):
+                    # merging into work that is still pending: never go back to
+                    # an older run ID because inputs are loaded by run ID first
+                    known = n.get('runid')
+                    if rid is None or known is None:
+                        rid = None
+                    else:
+                        rid = max(rid, known)
+                n.set('runid', rid)
                 n.set(
                     'status',
                     (
